@@ -33,6 +33,7 @@ fn run_radix<T: Flt>(rep: &Report, cli: &Cli, radix: u32) {
     }
     fam_hw(&spell, T::FMT, if thorough { 1 } else { 0 }, if thorough { 1 } else { 4 }, th, &mk("HW", false));
     fam_bd(&spell, T::FMT, &mk("BD", true));
+    fam_wrap(&spell, T::FMT, &mk("WRAP", false));
 }
 
 fn run_mixed<T: Flt>(rep: &Report, cli: &Cli) {
